@@ -103,6 +103,9 @@ type DocConfig struct {
 	LongBodyLen int
 	// LongBodyEOL makes those bodies end in an end-of-line marker instead.
 	LongBodyEOL bool
+	// LongHeaders gives every object a seven-digit number and a five-digit
+	// generation ("1234567 54321 obj").
+	LongHeaders bool
 	// WithMetadata adds an XMP metadata stream to the catalog (needs version >= 1.4);
 	// PlaintextMetadata writes it unfiltered and unencrypted.
 	WithMetadata      bool
@@ -461,6 +464,11 @@ func BuildDoc(r *kit.Rand, cfg DocConfig) (*Doc, error) {
 		used[o.Ref.Number()] = true
 	}
 	newRef := func() pdf.Reference {
+		if cfg.LongHeaders {
+			alloc()
+			highest = max(highest, 1000000) + uint32(1+r.Intn(9))
+			return pdf.NewReference(highest, uint16(10000+r.Intn(55536)))
+		}
 		if r.Chance(1, 6) {
 			// sparse object number and/or non-zero generation, not from Alloc
 			alloc() // learn the Writer's next number (WriteCompressed allocates on its own)
